@@ -77,7 +77,7 @@ var intCorners = func() []*big.Int {
 func genInt(t *rapid.T, kind string) string {
 	b := intBounds[kind]
 	switch k := rapid.IntRange(0, 9).Draw(t, "intkind"); {
-	case k < 5:
+	case k < 6:
 		var fit []*big.Int
 		for _, c := range intCorners {
 			if c.Cmp(b[0]) >= 0 && c.Cmp(b[1]) <= 0 {
@@ -85,7 +85,7 @@ func genInt(t *rapid.T, kind string) string {
 			}
 		}
 		return rapid.SampledFrom(fit).Draw(t, "corner").String()
-	case k < 6:
+	case k < 7:
 		return rapid.SampledFrom([]*big.Int{b[0], b[1]}).Draw(t, "bound").String()
 	case k < 8:
 		return strconv.Itoa(rapid.IntRange(-3, 20).Filter(func(n int) bool { return n >= 0 || b[0].Sign() < 0 }).Draw(t, "small"))
@@ -107,8 +107,15 @@ func TextCorner(x float64) bool {
 	return (a >= 9.99999999999999e20 && a < 1e21) || (a >= 9.99999999999999e-7 && a < 1e-6)
 }
 
-// GenDouble draws from the shared boundary pool, avoiding the C06 text corners.
+var doubleSpecials = []float64{math.NaN(), 0, math.Copysign(0, -1), math.Inf(1), math.Inf(-1), math.MaxFloat64, -math.MaxFloat64, 5e-324, -5e-324, 2.2250738585072014e-308,
+	9007199254740991, 9007199254740992, 9007199254740994, -9007199254740992, 9223372036854775808, -9223372036854775808, 9223372036854774784, 18446744073709551616, 18446744073709549568,
+	1e21, 1e-7, 0.1, -0.1, 0.5, -0.5, 1.5, -1.5, 0.9999999999999999, -0.9999999999999999, 4294967295.5, -2147483648.5, 1e300, 123456789012345680000}
+
+// GenDouble draws special values (20 %) or from the shared boundary pool, avoiding the C06 text corners.
 func GenDouble(t *rapid.T) float64 {
+	if rapid.IntRange(0, 4).Draw(t, "special") == 0 {
+		return rapid.SampledFrom(doubleSpecials).Draw(t, "specialdouble")
+	}
 	return gen.Double().Filter(func(x float64) bool { return !TextCorner(x) }).Draw(t, "double")
 }
 
@@ -140,10 +147,17 @@ var GoNumericStrings = []string{"", " ", "0", "-0", "+0", "1", "-1", "12", "007"
 	"0x", "+0x10", "-0x10", "1e", ".", "+", "-", "e5", "Infinityx", "+ 1", "1 2", "1,5", "\u0661", "NaN", "abc", "1f", "--1", "1e5.5", "true", "null", "12px", "1..", "\u200b1", "1\u0000", "0b1", "0o7",
 	"infinity", "INFINITY", "inf", "+inf", "1_0", "0x1_0", "0x1.8p1", "-0x1p1", "0x8000000000000000", "0xffffffffffffffff"}
 
+// SpecialStrings: U+FFFD (what a lone surrogate would decay to), astral characters, NUL, line separators.
+var SpecialStrings = []string{"\ufffd", "a\ufffdb", "\ufffd\ufffd", "\U0001F600", "a\U0001F600", "\U00010000", "\U0010FFFF", "\U0001D4B3x\U0001D4B3", "\u00e9", "\u0000", "a\u0000b", "\u2028", "\uffff", "\ud7ff\ue000",
+	"\U0001F600\ufffd\u00e9a", "undefined", "null", "[object Object]", "NaN"}
+
 // GenString draws a valid UTF-8 string: numeric-looking (30 %) or over the four alphabets incl. astral and U+FFFD.
 func GenString(t *rapid.T) string {
-	if rapid.IntRange(0, 9).Draw(t, "strkind") < 3 {
+	switch k := rapid.IntRange(0, 9).Draw(t, "strkind"); {
+	case k < 3:
 		return rapid.SampledFrom(GoNumericStrings).Draw(t, "numstr")
+	case k < 5:
+		return rapid.SampledFrom(SpecialStrings).Draw(t, "special")
 	}
 	s, _ := harness.FromUTF16(gen.Units16(8).Draw(t, "units"))
 	return s
@@ -246,12 +260,15 @@ func GenTyped(t *rapid.T, typ string, depth int) D {
 	panic("m15: cannot generate " + typ)
 }
 
+// weighted scalar kinds for top-level values: numbers and strings carry the interesting classes
+var topScalars = []string{"bool", "int", "int8", "int16", "int32", "int64", "int64", "uint", "uint8", "uint16", "uint32", "uint64", "uint64", "float32", "float32", "float64", "float64", "float64", "string", "string", "string"}
+
 // GenTop draws a top-level Go value of any supported kind (containers nested to depth 3).
 func GenTop(t *rapid.T) D {
 	k := rapid.IntRange(0, 19).Draw(t, "topkind")
 	switch {
-	case k < 8:
-		return genScalar(t, rapid.SampledFrom(ScalarTypes).Draw(t, "scalar"))
+	case k < 7:
+		return genScalar(t, rapid.SampledFrom(topScalars).Draw(t, "scalar"))
 	case k < 9:
 		if rapid.Bool().Draw(t, "nilOrNamed") {
 			return D{T: "nil"}
